@@ -13,6 +13,9 @@ The model follows the code that exists, including what looks wrong:
 * `bind2Bound` is cleared only by `openSession`;
 * the see-other-host branch of `_q_socketDisconnected` does not close the session.
 
+`<success/>` of a SCRAM exchange is accepted only with a valid server signature in its data (tree state after the
+"server never proved knowledge of the password" fix); PLAIN and HT accept any `<success/>`.
+
 One element per step (the harness sends one element per read).  Sockets: `disconnectFromHost()` on a
 connected socket delivers `disconnected` synchronously (observed), so closing is atomic here.
 Not modelled: DNS/SRV address lists (`TryNext`), direct TLS, resumption `location`, SM counters and acks
